@@ -609,6 +609,19 @@ func c03Worker(c *core.Collector, x *Ctx) {
 					continue
 				}
 				do(s[:i], true, "prefix")
+				// short prefixes with small flag / count values substituted: "minimal" bodies that a parser may special-case
+				if i >= 1 && i <= 8 {
+					for j := 0; j < i; j++ {
+						for _, v := range []byte{0, 1, 2, 3, 0xff} {
+							if s[j] == v {
+								continue
+							}
+							q := append([]byte{}, s[:i]...)
+							q[j] = v
+							do(q, true, "short-prefix-substitute")
+						}
+					}
+				}
 			}
 			// substitutions
 			pos := g.Perm(len(s))
